@@ -27,7 +27,7 @@ def impl_generate(spec, inst, keep=False):
     return res
 
 def graph_obs(g):
-    return {'nodes': [{'id': n.id, 'full_name': n.full_name, 'asset': n.asset.name if n.asset else None, 'name': n.name,
+    return {'nodes': [{'id': n.id, 'full_name': n.full_name, 'asset': str(n.asset.name) if n.asset else None, 'name': n.name,
                        'type': n.type, 'ttc': jtxt(n.ttc), 'tags': list(n.tags), 'mitre': n.mitre_info,
                        'defense': None if n.defense_status is None else float(n.defense_status),
                        'exist': n.existence_status} for n in g.nodes],
